@@ -686,6 +686,35 @@ def rule_e(ctx):
                 if not (src.endswith('get_fragment_size_bytes()') or src.endswith('_fragment_size_bytes')):
                     bad.append((f, node, src))
     rep.require('C03.e', 'sites passing a fragment size to a frame builder', n_sites, 5)
+    # ... and every builder puts exactly what it was given into the frame it returns: whether a frame needs fragments
+    # is the fragmenter's decision, taken with the frame's real length (a builder that leaves the size out for frames
+    # it believes to fit sends those frames whole)
+    n_builders = 0
+    for name, b in sorted(builders.items()):
+        ok_b, why_b, n_ret = True, '', 0
+        ps = [p for p in ctx.paths(b, None, inline_depth=2) if p.outcome == 'return']
+        if ps and not any(p.value is not None and p.value.types and
+                          any(any(k.name == 'Frame' for k in t.mro()) for t in p.value.types) for p in ps):
+            continue  # a helper that takes the size, not a builder: it returns no frame
+        n_builders += 1
+        for p in ps:
+            n_ret += 1
+            st = [e for e in p.events if e.kind == 'store' and e.data['target'][0] == 'attr' and
+                  e.data['target'][2] == 'fragment_size_bytes' and e.func is b]
+            if len(st) != 1:
+                ok_b, why_b = False, 'a path stores the fragment size %d times' % len(st)
+                continue
+            v = strip_epoch(st[0].data['value'].term)
+            if v != ('param', b.qualname, 'fragment_size_bytes'):
+                ok_b, why_b = False, ('line %s: the frame gets %s, not the size the builder was given'
+                                      % (st[0].line, fmt_term(v)[:80]))
+            elif p.value is None or strip_epoch(st[0].data['target'][1]) != strip_epoch(p.value.term):
+                ok_b, why_b = False, 'the size is stored in an object other than the returned frame'
+        if not n_ret:
+            raise AnalysisError('C03.e: no normal path through %s' % name)
+        rep.add('C03.e', '%s / the frame carries the size the builder was given' % name, b, ok_b,
+                why_b or 'frame.fragment_size_bytes = fragment_size_bytes on all %d paths' % n_ret)
+    rep.require('C03.e', 'builders of fragmentable frames', n_builders, 5)
     rep.add('C03.e', 'frame builders / fragment size passed unmodified', base, not bad,
             'all %d call sites of fragmentable-frame builders pass the configured fragment size' % n_sites if not bad
             else '%s passes %s as fragment size at line %s' % (bad[0][0].short, bad[0][2], bad[0][1].lineno))
